@@ -7,7 +7,7 @@ For every (twin pair, integer lvalue) whose sets of float-free assignment expres
 (frozen in spec/c02_flpfix_twins.json; `_FLP/_FIX/_Fxx` suffixes are normalised away) the two twins must keep
 assigning that lvalue from the same expressions.  Sibling agreement, not equivalence."""
 import json, os, re
-from .. import sx
+from .. import sx, cfg as cfgm
 from ..compdb import AnalysisBroken
 
 SPEC = os.path.join(os.path.dirname(os.path.dirname(os.path.dirname(os.path.abspath(__file__)))), 'spec', 'c02_flpfix_twins.json')
@@ -31,6 +31,44 @@ def skeleton(f):
     return out
 
 
+def _plain(c):
+    return not any(sx.kind(x) in ('flt', 'call') for x in sx.walk(c))
+
+
+def guarded_skeleton(f):
+    """lvalue -> {(expression, guards)}: guards = the float-free, call-free branch conditions (with polarity) the store is control
+    dependent on.  Hoisting an assignment out of its branch, or moving it under another one, changes this
+    set although the expression stays the same."""
+    out = {}
+    cf = cfgm.CFG(f)
+    loopctl = set()
+    for h, latch, body in cf.natural_loops():
+        loopctl |= {h, latch}                 # loop-exit tests are not decisions about the store
+    for b, i, n in cf.find(lambda n: n[0] in ('assign', 'cassign')):
+        lv = sx.strip(n[1] if n[0] == 'assign' else n[2])
+        rhs = n[2] if n[0] == 'assign' else n[3]
+        if sx.kind(lv) != 'field':
+            continue
+        if any(sx.kind(x) == 'flt' for x in sx.walk(rhs)):
+            continue
+        # control dependence: branch edges (p, polarity) such that the store is always reached after taking that edge
+        # (it post-dominates the edge's target) but not always after reaching p.  `if (A || B) { store }` depends on A and on B.
+        deps = set()
+        for pb in cf.blocks:
+            c = cf.cond(pb)
+            es = cf.edges(pb)
+            if c is None or len(es) != 2 or es[0][1] is None or pb in loopctl or not _plain(c):
+                continue
+            if cf.postdominates(b, pb) and b != pb:
+                continue
+            for s_, pol in es:
+                if s_ == b or cf.postdominates(b, s_):
+                    deps.add(('' if pol else '!') + norm(sx.show(c)))
+        gs = tuple(sorted(deps))
+        out.setdefault(norm(sx.show(lv)), {})[(norm(('=' if n[0] == 'assign' else n[1]) + ' ' + sx.show(rhs)), gs)] = '%s:%s' % (f.file, sx.line(n))
+    return out
+
+
 def pairs(pf, px):
     for f in pf.functions_all:
         if f.name.endswith('_FLP') and f.file.startswith('silk/float/'):
@@ -39,19 +77,22 @@ def pairs(pf, px):
                 yield f, px.fn(g)
 
 
-def check(rep, rule, pf, px):
+def check(rep, rule, pf, px, only=None):
     try:
         spec = json.load(open(SPEC))
     except (OSError, ValueError):
         raise AnalysisBroken('spec/c02_flpfix_twins.json missing')
     n = 0
     for f, g in pairs(pf, px):
+        if only is not None and not only(f.name):
+            continue
         names = spec.get(f.name[:-4], [])
-        if not names:
+        if not names or not isinstance(names, list):
             continue
         rep.functions.add(f.name)
         rep.functions.add(g.name)
         a, b = skeleton(f), skeleton(g)
+        ga = gb_ = None
         for nm in names:
             if nm not in a or nm not in b:
                 continue
@@ -59,6 +100,19 @@ def check(rep, rule, pf, px):
             inst = '%s and %s assign `%s` from the same integer expressions' % (f.name, g.name, nm)
             if set(a[nm]) == set(b[nm]):
                 rep.holds(rule, inst, list(a[nm].values())[0], '%d form(s)' % len(a[nm]))
+                if nm in spec.get('guarded', {}).get(f.name[:-4], []):
+                    if ga is None:
+                        ga, gb_ = guarded_skeleton(f), guarded_skeleton(g)
+                    n += 1
+                    inst2 = '%s and %s assign `%s` under the same integer branch conditions' % (f.name, g.name, nm)
+                    xa, xb = set(ga.get(nm, {})), set(gb_.get(nm, {}))
+                    if xa == xb:
+                        rep.holds(rule, inst2, list(a[nm].values())[0], '%d guarded form(s)' % len(xa))
+                    else:
+                        oa, ob = sorted(xa - xb), sorted(xb - xa)
+                        where = ga[nm][oa[0]] if oa else gb_[nm][ob[0]]
+                        rep.violated(rule, inst2, where, 'only in the float twin: %s; only in the fixed-point twin: %s - the same store now happens under different conditions in the two builds of the encoder' % (
+                            [(e[:50], list(gs)[:3]) for e, gs in oa] or '-', [(e[:50], list(gs)[:3]) for e, gs in ob] or '-'), key='%s:%s:guards' % (f.name[:-4], nm))
             else:
                 oa, ob = sorted(set(a[nm]) - set(b[nm])), sorted(set(b[nm]) - set(a[nm]))
                 where = a[nm][oa[0]] if oa else b[nm][ob[0]]
@@ -76,5 +130,9 @@ if __name__ == '__main__':
         names = sorted(k for k in set(a) & set(b) if set(a[k]) == set(b[k]))
         if names:
             out[f.name[:-4]] = names
+        ga, gb_ = guarded_skeleton(f), guarded_skeleton(g)
+        gn = sorted(k for k in set(ga) & set(gb_) & set(names) if set(ga[k]) == set(gb_[k]))
+        if gn:
+            out.setdefault('guarded', {})[f.name[:-4]] = gn
     json.dump(out, open(SPEC, 'w'), indent=1, sort_keys=True)
-    print(sum(len(v) for v in out.values()))
+    print(sum(len(v) for k, v in out.items() if k != 'guarded'), sum(len(v) for v in out.get('guarded', {}).values()))
